@@ -395,7 +395,7 @@ func c15RunFake(t *testing.T, out *vOut, f *c15FakeServers, s c15Fake, ci int, r
 				out.Linef("viol sig=C15/%s-exporter/panic %v", s.tr, p)
 			}
 		}()
-		ctx, cancel := context.WithTimeout(context.Background(), 20*time.Second)
+		ctx, cancel := context.WithTimeout(context.Background(), c15Patience)
 		defer cancel()
 		var err error
 		switch sig {
@@ -417,7 +417,7 @@ func c15RunFake(t *testing.T, out *vOut, f *c15FakeServers, s c15Fake, ci int, r
 		if diff < 0 {
 			diff = -diff
 		}
-		if diff <= 3*time.Second {
+		if diff <= 30*time.Second { // generous: the date is formatted before the request and read after the answer (loaded machine)
 			verdict = "throttle-date"
 		}
 	}
